@@ -51,7 +51,8 @@ def main():
                 continue
             rcs, os_ = sh("/venv/bin/python -m pytest -q -p no:cacheprovider --timeout=900 -x 2>&1 | tail -1", WT)
             rc1, o1 = sh(f"timeout 120 /venv/bin/python {demo}", WT, env=env)
-            confirmed = rc0 == 0 and rc1 != 0 and "passed" in os_ and "failed" not in os_
+            import re as _re
+            confirmed = rc0 == 0 and rc1 != 0 and "passed" in os_ and not _re.search(r"\b\d+ (failed|error)", os_)
             print(f"{pid}: demo clean rc={rc0} patched rc={rc1} suite='{os_.strip()}' confirmed={confirmed} ported={ported}")
             if not confirmed:
                 print("   clean:", o0[-300:].replace("\n", " | "))
